@@ -28,6 +28,16 @@ CHECKS = {
         design="2/C11",
         note=TRUSTED + " Diagnostics are realised with module-level lambdas (undefined_name, unsupported_operation).",
     ),
+    "C16": dict(
+        technique="TLA+ state machine FixLoop.tla (add-ignores loop over the Suppression.tla machine) model-checked by TLC "
+        "for convergence / tree unchanged / each inserted ignore targets one diagnostic; the real fix loop is driven on the "
+        "TLC-enumerated files and its Begin/Iter/End stream validated by TLC (FixLoopTrace.tla)",
+        text="Model checking of the add-ignores fix loop: every abstract file x settings, every iteration to the fixpoint; "
+        "the three known deviation classes are named predicates in the spec (known_findings.jsonl), everything else must "
+        "hold. Real loop bound by trace validation of every iteration (inserted line, position, first diagnostic).",
+        design="2/C16",
+        note=TRUSTED + " Replacement fixes other than add-ignores are not yet covered by this check.",
+    ),
     "C18": dict(
         technique="TLA+ spec Config.tla (options.py transcription vs documented precedence) checked exhaustively by TLC; "
         "every TLC-enumerated/simulated case replayed through real TOML files + pyanalyze.options and adjudicated by TLC "
